@@ -214,11 +214,14 @@ def to_native(shape, j, opaque=None):
         cls = load_class(shape.cls)
         return cls[j["member"] if isinstance(j, dict) else j]
     if k == "const":
-        return shape.value
+        return _native_const(shape.value)
+    if k == "subset":
+        items = (j.get("set") or j.get("list") or j.get("frozenset") or []) if isinstance(j, dict) else (j or [])
+        return frozenset(items) if shape.frozen else set(items)
     if k == "opaque":
         f = opaque.get(shape.tag)
         if f is None:
-            raise KeyError(f"no native binding for opaque value '{shape.tag}'")
+            return object()    # never inspected by the code under contract
         return f() if callable(f) else f
     raise NotImplementedError(f"native binding for shape {k}")
 
@@ -301,6 +304,8 @@ def gen_json(shape, rng: random.Random, seeds=None, size=3):
         cls = load_class(shape.cls)
         members = shape.members or [m.name for m in cls]
         return {"member": rng.choice(list(members))}
+    if k == "subset":
+        return {"set": [e for e in shape.elems if rng.random() < 0.7]}
     if k in ("const", "opaque"):
         return None
     raise NotImplementedError(f"generator for shape {k}")
@@ -346,4 +351,16 @@ def _sort_key(e, key):
             if kk in v:
                 return v[kk]
         return num(v)
+    return v
+
+
+def _native_const(v):
+    if hasattr(v, "member") and hasattr(v, "cls"):
+        return native_key(v)
+    if isinstance(v, dict):
+        return {_native_const(k): _native_const(x) for k, x in v.items()}
+    if isinstance(v, list):
+        return [_native_const(x) for x in v]
+    if isinstance(v, tuple):
+        return tuple(_native_const(x) for x in v)
     return v
